@@ -24,6 +24,7 @@ type State struct {
 	Fp          map[string]int64            `json:"fp"`
 	Supply      map[string]int64            `json:"supply"`
 	SwitchOn    bool                        `json:"switchOn"`
+	Nl          int                         `json:"nl"`
 }
 
 type AuctionJ struct {
@@ -106,7 +107,7 @@ func (e *Env) feeJ(c sdk.Coins) FeeJ {
 // Project reads the whole abstract state back through public API.
 func (e *Env) Project(ctx sdk.Context) (State, error) {
 	k := e.K
-	st := State{Now: TimeTick(ctx.BlockTime()), SwitchOn: frkeeper.EnableAddAllowedBidder,
+	st := State{Now: TimeTick(ctx.BlockTime()), SwitchOn: frkeeper.EnableAddAllowedBidder, Nl: len(e.Lis),
 		Auctions: []AuctionJ{}, Allowed: []map[string]int64{}, Bids: [][]BidJ{}, Bseq: []int64{}, Vqs: [][]VqJ{},
 		LastMatched: []int64{}, Bal: map[string]map[string]int64{}, Fp: map[string]int64{}, Supply: map[string]int64{}}
 	p, err := k.Params.Get(ctx)
